@@ -12,10 +12,10 @@ def _walk(name, suffix, budget, quick=False, quick_suffix=None):
 
 PROP = dict(
     level="model_checking",
-    technique="TLA+ spec Health.tla (code state of internal/health.Health + ghost report history) model-checked by TLC; every generated transition replayed into a real started Health (real ticker goroutine, clockwork fake clock, deterministic tick barrier) and IsAlive/IsReady compared (spec->code transition tour)",
+    technique="TLA+ spec Health.tla (code state of internal/health.Health + ghost report history) model-checked by TLC; every generated transition replayed into a real started Health (real ticker goroutine, clockwork fake clock, deterministic tick barrier) and IsAlive/IsReady compared (spec->code transition tour); concurrent callers (-race build) recorded as call/return histories and checked by TLC for linearizability against the same spec (TraceHealth.tla)",
     design_ref="DESIGN.md §5 C30",
-    level_text="TLC explores every order of Register/Unregister/Ready(true|false)/clock advance/tick processing, including calls racing with the tick at a tick boundary, for 2 subsystems with timeouts that are not multiples of the 500 ms tick: quick on a 250 ms grid (a 750|1250 ms, b 1250 ms; thorough both 750|1250 ms; re-registration may change the timeout); thorough additionally on a 100 ms grid (600 ms + 1200 ms; 300 ms + 1700 ms) and, model only, 300|1000|1700 ms for 2 and 600/600/1200 ms for 3 subsystems. It checks on the model that the answers the code computes satisfy C30: alive whenever every registered subsystem was heard from less than timeout-tick ago, dead whenever one that reported has been silent for more than timeout+tick and until it reports again, ready only if something is registered, every registered subsystem reported ready and nothing is unregistered (re-registration counts as registered). Each generated transition of the 2-subsystem graphs is then executed on a real started Health and IsAlive()/IsReady() must equal the model's answers.",
-    level_note="The walk first demands the exact answers of the code model (alternative 'exact'); only if the code departs from it is it compared with the alternative 'loose', in which IsAlive/IsReady may be anything the C30 statement allows (+-1 tick slack; readiness open while a subsystem is dead) - VIOLATION only if neither fits. Readings: an unreported subsystem must not be reported dead within timeout-tick of its registration; ready must be TRUE when all the listed conditions hold and every subsystem is punctual. Exhaustive only within the bound (2 subsystems, the listed timeouts, saturating silence counters); /alive and /ready HTTP/gRPC endpoints of route.go are not driven (they call the same Reporter methods); the barrier relies on Health.ticker re-evaluating tick.Chan() per loop iteration (otherwise the check reports cannot-decide, not a violation); clockwork's fake ticker is trusted.",
+    level_text="TLC explores every order of Register/Unregister/Ready(true|false)/clock advance/tick processing, including calls racing with the tick at a tick boundary, for 2 subsystems with timeouts that are not multiples of the 500 ms tick: quick on a 250 ms grid (a 750|1250 ms, b 1250 ms; thorough both 750|1250 ms; re-registration may change the timeout); thorough additionally on a 100 ms grid (600 ms + 1200 ms; 300 ms + 1700 ms) and, model only, 300|1000|1700 ms for 2 and 600/600/1200 ms for 3 subsystems. It checks on the model that the answers the code computes satisfy C30: alive whenever every registered subsystem was heard from less than timeout-tick ago, dead whenever one that reported has been silent for more than timeout+tick and until it reports again, ready only if something is registered, every registered subsystem reported ready and nothing is unregistered (re-registration counts as registered). Each generated transition of the 2-subsystem graphs is then executed on a real started Health and IsAlive()/IsReady() must equal the model's answers. Concurrency: 250 (quick) / 1500 (thorough) short rounds on a fresh Health, 2-4 goroutines released together calling Register/Unregister/Ready on the same and different subsystems, then quiescence, 4 processed ticks, a follow-up Ready per subsystem and one more tick; TLC accepts the recorded history only if every concurrent call can take effect atomically at one instant between its call and its return such that all observations (IsAlive/IsReady at quiescence and after each later step) are the model's.",
+    level_note="The walk first demands the exact answers of the code model (alternative 'exact'); only if the code departs from it is it compared with the alternative 'loose', in which IsAlive/IsReady may be anything the C30 statement allows (+-1 tick slack; readiness open while a subsystem is dead) - VIOLATION only if neither fits. Readings: an unreported subsystem must not be reported dead within timeout-tick of its registration; ready must be TRUE when all the listed conditions hold and every subsystem is punctual. Exhaustive only within the bound (2 subsystems, the listed timeouts, saturating silence counters); /alive and /ready HTTP/gRPC endpoints of route.go are not driven (they call the same Reporter methods); the barrier relies on Health.ticker re-evaluating tick.Chan() per loop iteration (otherwise the check reports cannot-decide, not a violation); clockwork's fake ticker is trusted. The concurrent stage is sampling, not exhaustive: interleavings are whatever the Go scheduler produces in the -race build, helped only by a Logger stub that yields inside Health's own log calls (as a logger doing I/O would); a data race reported by the detector makes the stage cannot-decide, not a C30 violation.",
     assumptions=["clockwork.FakeClock/fake ticker is faithful", "bounded: 2 subsystems, timeouts from a small set, time on a 100/250 ms grid",
                  "a tick is processed by the ticker goroutine before the clock moves on (calls at the same instant may come before or after it)"],
     stages=[_walk("Health", "_g250", {"quick": 60, "thorough": 120}, quick=True, quick_suffix=""),   # 250 ms grid, a 750|1250 ms, b 1250 ms (thorough: both 750|1250 ms)
